@@ -58,6 +58,32 @@ def eval_source(o):
         "Print RES."])
 
 
+def coq_op(op):
+    f = op.split()
+    if f[0] == "E":
+        return "OEnter"
+    if f[0] == "X":
+        return "OLeave"
+    return "OLoad %s %s" % (cs(f[1]), cs(f[2]))
+
+
+def script_source(o):
+    rows = ";\n".join("([%s], [%s])" % ("; ".join("(%s, %s)" % (cs(k), cs(v)) for k, v in (sc["init"] or [])),
+                                         "; ".join(coq_op(x) for x in sc["ops"])) for sc in o["scripts"])
+    return "\n".join([
+        "From Coq Require Import List String Bool.",
+        "From RG.Base Require Import Outcome.",
+        "From RG.Types Require Import ImportsTab.",
+        "Import ListNotations. Local Open Scope string_scope.",
+        "Definition paths : list string := [%s]." % "; ".join(cs(x) for x in o["itab_paths"]),
+        "Definition names : list string := [%s]." % "; ".join(cs(x) for x in o["itab_names"]),
+        "Definition scripts : list (list (string * string) * list op) := [\n%s\n]." % rows,
+        "Definition TR := Eval vm_compute in (map (fun s => String.concat \",\" (show_trace paths names (fst s) (snd s))) scripts).",
+        "Print TR.",
+        "Definition WF := Eval vm_compute in (map (fun s => wf_script 0 (snd s)) scripts).",
+        "Print WF."])
+
+
 def parse_gen_scope(text, name):
     """`Definition <name> : list (string * string) := [ ("a", "b"); ... ].` of a generated file -> dict (None: not found)."""
     m = re.search(r"Definition %s\b[^=]*:=\s*\[(.*?)\]\." % name, text, re.S)
@@ -68,7 +94,7 @@ def parse_gen_scope(text, name):
 
 def run(c):
     thorough = c.tier == "thorough"
-    c.go2coq_sources = ["c20.go"]
+    c.go2coq_sources = ["c20.go", "c20itab.go"]
     c.rule = ("rules files with 1..3 groups; each group has 0..3 Import() calls out of packages whose base names collide with each "
               "other and with the stdlib (example.com/io, a/foo, b/foo, html/template, text/scanner, c20/lib), may be skipped by "
               "GroupFilter, and has 1..3 rules with a qualified name in Type.Is / Underlying().Is / SinkType.Is / Implements (pkg.T and "
@@ -98,9 +124,13 @@ def run(c):
         "go2coq c20tables: reads the creators / mutators / lookup sites of the import table, the holders of parsed patterns, and "
         "the PathByName / PackagesList literals of the stdinfo module version that /repo/go.mod selects (`go list -m`)",
         "stdinfo's import frequencies as the meaning of 'the more common package' (documented in stdinfo.go)",
+        "go2coq itabmethods: fail-closed reader of `type ImportsTab struct`, NewImportsTab and the bodies of Lookup / Load / EnterScope / "
+        "LeaveScope (one field of type []map[string]string; the canonical downward loop, index / slice / append / map assignment) into the "
+        "vocabulary of RG.Types.ITabGo (Go slices and maps as lists / association lists with Go's panics); map aliasing (the caller's "
+        "initial map is the outermost scope) is outside that vocabulary and is checked by the harness instead",
     ]
     c.build_theories()
-    c.require_theories("Types/ImportsTab.v", "Types/StdTab.v")
+    c.require_theories("Types/ImportsTab.v", "Types/StdTab.v", "Types/ITabGo.v")
     # ---- P over regenerated code and tables: the base table, where it changes, the stdlib defaults themselves
     c.install_tmpl("C20/C20.v")
     c.coq_compile(["C20.v"])
@@ -113,6 +143,12 @@ def run(c):
         if c.coq_compile(["Gen_C20.v"]):
             c.install_tmpl("C20/Inst_C20.v", "C20/C20Std.v")
             c.coq_compile(["Inst_C20.v", "C20Std.v"])
+    # ---- P over the data structure itself, TRANSLATED from typematch on this run: struct field, constructor and the four methods
+    # refine the model's operations, hence balance / most-recent-live-binding hold of the translated source
+    if c.go2coq("itabmethods", "Gen_ITab.v"):
+        if c.coq_compile(["Gen_ITab.v"]):
+            c.install_tmpl("C20/Inst_ITab.v", "C20/C20Tab.v")
+            c.coq_compile(["Inst_ITab.v", "C20Tab.v"])
     hb = c.build_harness("c20")
     if hb is None:
         return c.finish()
@@ -207,6 +243,57 @@ def run(c):
             c.coverage["std_names_swept"] = len(sw["names"])
             c.coverage["std_names_bound"] = sum(1 for sn in sw["names"] if sn["documented"])
             c.coverage["std_names_ambiguous"] = sum(1 for sn in sw["names"] if len(sn["candidates"]) > 2)
+        # ---- the table itself: scripted Enter / Load / Leave histories, the whole visible table after every step
+        scripts = o.get("scripts") or []
+        if not scripts:
+            c.obligation("itab-scripts:" + tag, False, "the harness ran no import-table scripts")
+        else:
+            ok2, out2 = c.coq_eval("Scripts_%s.v" % tag, script_source(o), timeout=900)
+            mtr = mwf = None
+            if not ok2:
+                c.obligation("coq-eval:Scripts_%s.v" % tag, False, out2[-2000:])
+            else:
+                m1 = re.search(r"TR\s*=\s*\[(.*?)\]\s*:\s*list string", out2, re.S)
+                m2 = re.search(r"WF\s*=\s*\[(.*?)\]\s*:\s*list bool", out2, re.S)
+                if m1 and m2:
+                    mtr = [x.split(",") if x else [] for x in re.findall(r'"([^"]*)"', m1.group(1))]
+                    mwf = re.findall(r"true|false", m2.group(1))
+                if mtr is None or len(mtr) != len(scripts) or len(mwf) != len(scripts):
+                    c.obligation("coq-eval-parse:Scripts_%s.v" % tag, False, out2[-1500:])
+                    mtr = None
+            nrep = 0
+            for k, sc in enumerate(scripts):
+                c.evaluations += len(sc["ops"])
+                if nrep >= 4:
+                    continue   # enough scripts reported; the rules files below show the same defect at the engine level
+                inp = {"seed": o["seed"], "initial_table": sc["init"], "script": sc["ops"], "names": o["itab_names"], "paths": o["itab_paths"],
+                       "reading": "after every operation: Lookup of every name ('-' unbound, digit = index into paths)"}
+                if sc.get("rebinds") or sc.get("max_depth", 0) > 1:
+                    c.nontrivial.add(("itab-script", json.dumps(sc["init"]), " ".join(sc["ops"])))
+                nrep += 1 if (sc["panic"] or sc["obs"] != sc["oracle"] or sc["init_changed"]) else 0
+                if sc["panic"]:
+                    c.fail("oracle", "the import table panics on a well-bracketed script", input=inp, observed=sc["panic"], expected=sc["oracle"])
+                    continue
+                if sc["obs"] != sc["oracle"]:
+                    step = next(i for i, (a, b) in enumerate(zip(sc["obs"], sc["oracle"])) if a != b)
+                    c.fail("oracle", "ImportsTab.Lookup does not answer with the most recent binding whose scope is still open "
+                           "(after operation %d: %s)" % (step + 1, sc["ops"][step]), input=inp, expected=sc["oracle"], observed=sc["obs"])
+                elif sc["init_changed"]:
+                    c.fail("oracle", "a script that binds names inside its own scopes only changed the caller's initial map (the engine "
+                           "passes the shared stdinfo.PathByName)", input=inp, expected="unchanged", observed=sc["init_changed"])
+                elif mtr is not None:
+                    if mtr[k] != sc["obs"]:
+                        c.fail("corr", "model exec/lookup differs from the real import table on a script", input=inp, expected=mtr[k], observed=sc["obs"])
+                    if mwf[k] != "true":
+                        c.obligation("itab-script-wf:%s:%d" % (tag, k), False, "a generated script is not wf_script 0 (the balance theorem would not apply)")
+                    elif sc["obs"] and sc["obs"][-1] != "".join(
+                            (str(o["itab_paths"].index(dict(map(tuple, sc["init"] or [])).get(nm))) if nm in dict(map(tuple, sc["init"] or [])) else "-")
+                            for nm in o["itab_names"]):
+                        c.fail("corr", "C20_script_balanced predicts the initial table after a well-bracketed script; observed another", input=inp,
+                               observed=sc["obs"][-1])
+            c.coverage["itab_scripts"] = c.coverage.get("itab_scripts", 0) + len(scripts)
+            c.coverage["itab_script_ops"] = c.coverage.get("itab_script_ops", 0) + sum(len(sc["ops"]) for sc in scripts)
+            c.coverage["itab_script_rebinds_in_one_scope"] = c.coverage.get("itab_script_rebinds_in_one_scope", 0) + sum(sc.get("rebinds", 0) for sc in scripts)
         table = o["table"]
         for k, sc in enumerate(o["scenarios"]):
             c.evaluations += 1
